@@ -70,6 +70,8 @@ static Json::Value gen() {
     if (sl == 2) rs["silence-logs"] = "plugins";
     if (sl == 3) rs["silence-logs"] = "engine,plugins";
   }
+  // kernfs-style 64-bit cgroup identities (generation in the upper half, slot recycled per path)
+  if (P(25)) sc["virt_ino"] = true;
   return sc;
 }
 
